@@ -43,8 +43,8 @@ def cell_value(pos, shape, base=100):
     return v
 
 
-def make_values(shape, vk="f", base=1, nan=()):
-    """injective encoding of the coordinate in every cell"""
+def make_values(shape, vk="f", base=1, nan=(), enc="coord"):
+    """injective encoding of the coordinate in every cell (enc='small': small positive numbers, for arithmetic)"""
     shape = tuple(shape)
     n = int(np.prod(shape)) if shape else 1
     if vk == "O":
@@ -57,6 +57,8 @@ def make_values(shape, vk="f", base=1, nan=()):
         out = np.empty(shape, dtype=np.float64)
     for k, pos in enumerate(itertools.product(*[range(s) for s in shape])):
         c = cell_value(pos, shape, base)
+        if enc == "small":
+            c = (2 + k + base % 3) if vk == "i" else (1.25 + 0.125 * k + (base % 4) * 0.03125)   # never 1: pow(1, nan) == 1
         if vk == "O":
             out[pos] = "v%d" % c
         elif vk == "b":
@@ -70,7 +72,7 @@ def make_values(shape, vk="f", base=1, nan=()):
     return out
 
 
-def spec(dims, labels, kinds, vk="f", base=1, nan=(), var="fresh", attrs=None, axattrs=None, opt=None):
+def spec(dims, labels, kinds, vk="f", base=1, nan=(), var="fresh", attrs=None, axattrs=None, opt=None, enc=None):
     s = {"dims": list(dims), "labels": [list(l) for l in labels], "kinds": list(kinds), "vk": vk, "base": base}
     if nan:
         s["nan"] = list(nan)
@@ -82,6 +84,8 @@ def spec(dims, labels, kinds, vk="f", base=1, nan=(), var="fresh", attrs=None, a
         s["axattrs"] = axattrs
     if opt:
         s["opt"] = opt
+    if enc:
+        s["enc"] = enc
     return s
 
 
@@ -90,7 +94,7 @@ def shape_of(s):
 
 
 def build_ref(s):
-    vals = make_values(shape_of(s), s.get("vk", "f"), s.get("base", 1), s.get("nan", ()))
+    vals = make_values(shape_of(s), s.get("vk", "f"), s.get("base", 1), s.get("nan", ()), s.get("enc", "coord"))
     return RA(s["dims"], s["labels"], vals, s.get("attrs"), s.get("axattrs"))
 
 
@@ -112,7 +116,7 @@ def build_impl(s):
     if opt:
         da.rcParams["indexing.by"] = opt
     try:
-        vals = make_values(shape_of(s), s.get("vk", "f"), s.get("base", 1), s.get("nan", ()))
+        vals = make_values(shape_of(s), s.get("vk", "f"), s.get("base", 1), s.get("nan", ()), s.get("enc", "coord"))
         nd = len(s["dims"])
         if var == "fresh" or nd == 0:
             a = DimArray(vals, axes=_axes(s))
